@@ -414,9 +414,27 @@ class Interp:
             if isinstance(recv, Other) and recv.kind == "slicer":
                 return Other("delegated-to-slicer")
         if isinstance(f, ast.Name) and f.id in self.funcs:
+            # call of a function of the same module (e.g. the AdArray arm delegating to the ndarray arm of the same function):
+            # interpret the callee with the actual arguments; parameters that are not passed take their DEFAULT value (a
+            # constant), not the caller's variable of the same name
             fn = self.funcs[f.id]
             params = [p.arg for p in fn.args.args]
-            return self.run(fn, dict(zip(params, [self.ev(x, env) for x in e.args])))
+            env2 = dict(zip(params, [self.ev(x, env) for x in e.args]))
+            for k in e.keywords:
+                if k.arg is None or k.arg not in params:
+                    raise Undecided(f"call {u(e)[:70]}: keyword not a parameter")
+                env2[k.arg] = self.ev(k.value, env)
+            dfl = fn.args.defaults
+            for p_, d_ in zip(params[len(params) - len(dfl):], dfl):
+                if p_ in env2:
+                    continue
+                if isinstance(d_, ast.Constant) and isinstance(d_.value, (int, float)) and not isinstance(d_.value, bool):
+                    env2[p_] = E.of(sp.Rational(str(d_.value)), "scalar")
+                else:
+                    raise Undecided(f"call {u(e)[:70]}: default of `{p_}` is not a numeric constant")
+            if set(params) - set(env2):
+                raise Undecided(f"call {u(e)[:70]}: parameters {sorted(set(params) - set(env2))} not bound")
+            return self.run(fn, env2)
         raise Undecided(f"call {u(e)[:70]}")
 
 
@@ -614,7 +632,7 @@ def _check_functions(ctx: Ctx, fun, fwdcls) -> None:
         psyms = {p: E.of(sp.Symbol(p, positive=True), "scalar") for p in params if p != var}
         for p_, dflt in zip(reversed(fn.args.args), reversed(fn.args.defaults)):
             pass
-        it = Interp(meths, {})
+        it = Interp(meths, funcs)
         res = {}
         bad_arity = False
         for kind, v in (("ad", Ad(E.of(xr), Jac({"self": E.of(1)}))), ("array", E.of(xr, "array"))):
@@ -790,6 +808,48 @@ def _check_maximum(ctx: Ctx, fun) -> None:
               f"Jacobian rows must be patched at the same index set `{inds}` from the second argument's Jacobian",
               construct="maximum: jacobian patch", facts={"sites": jac_patch_sites})
     _check_maximum_row_format(ctx, fun, fn, q, mj)
+    _check_maximum_fresh(ctx, fun, fn, q, mj)
+
+
+def _check_maximum_fresh(ctx: Ctx, fun, fn, q: str, mj: str) -> None:
+    """The Jacobian that is patched IN PLACE (merge_matrices / row assignment) must be a fresh object on every path, never the
+    operand's own matrix: `.tocsr()` / `.tocsc()` / `.asformat()` return the SAME object when the format already matches, so
+    only an explicit copy (`.copy()`, `copy=True`, a constructor) counts."""
+    from ..core.astutil import parent_map
+    pm = parent_map(fn)
+
+    def arms(node):
+        out, p = [], pm.get(node)
+        c = node
+        while p is not None and p is not fn:
+            if isinstance(p, ast.If):
+                out.append((id(p), "body" if any(c is b or c in list(ast.walk(b)) for b in p.body) else "orelse"))
+            c, p = p, pm.get(p)
+        return set(out)
+
+    def is_copy(v: ast.expr) -> bool:
+        if isinstance(v, ast.Call) and isinstance(v.func, ast.Attribute) and v.func.attr == "copy":
+            return True
+        if isinstance(v, ast.Call) and isinstance(kwarg(v, "copy"), ast.Constant) and kwarg(v, "copy").value is True:
+            return True
+        if isinstance(v, ast.Call) and (dotted(v.func) or "").split(".")[-1] in ("csr_matrix", "csc_matrix", "csr_array", "csc_array", "deepcopy") \
+                and not (isinstance(kwarg(v, "copy"), ast.Constant) and kwarg(v, "copy").value is False):
+            return (dotted(v.func) or "").endswith("deepcopy") or (isinstance(kwarg(v, "copy"), ast.Constant) and kwarg(v, "copy").value is True)
+        return False
+
+    copies = [s for s in walk_local(fn) if isinstance(s, ast.Assign) and len(s.targets) == 1 and u(s.targets[0]) == mj and is_copy(s.value)]
+    sites = [c for c in walk_local(fn) if isinstance(c, ast.Call) and call_name(c) == "merge_matrices" and c.args and u(c.args[0]) == mj]
+    sites += [s for s in walk_local(fn) if isinstance(s, ast.Assign) and isinstance(s.targets[0], ast.Subscript) and u(s.targets[0].value) == mj]
+    if not sites:
+        raise Undecided("maximum: no in-place patch site of the Jacobian found")
+    for site in sites:
+        sa = arms(site)
+        ok = any(cp.lineno < site.lineno and arms(cp) <= sa for cp in copies)
+        ctx.check("R4", ok, fun, q, site,
+                  f"`{mj}` is patched in place here but is not a fresh copy on this path (conversions such as .tocsr() return the same "
+                  f"object when the format already matches): the first argument's own Jacobian is overwritten and every later use of that "
+                  f"operand differentiates wrongly", construct="maximum: patched Jacobian is a fresh copy",
+                  facts={"copies_at": [c.lineno for c in copies]})
 
 
 def _check_maximum_row_format(ctx: Ctx, fun, fn, q: str, mj: str) -> None:
@@ -968,6 +1028,9 @@ MUTANTS = [
     _m("seed-maximum-scalar-clip-keeps-jac", "        vals[1] = np.ones_like(vals[0]) * vals[1]\n", "        return AdArray(np.maximum(vals[0], vals[1]), jacs[0])\n", "R4"),
     _m("revert-fix-maximum-keeps-csc", "        is_csc = max_jac.getformat() == \"csc\"\n        max_jac = max_jac.tocsr()\n",
        "        is_csc = False\n        if not max_jac.getformat() == \"csc\":\n            max_jac = max_jac.tocsr()\n", "R4"),
+    _m("seed-maximum-no-copy-relies-on-tocsr", "    max_jac = jacs[0].copy()\n", "    max_jac = jacs[0]\n", "R4"),
+    _m("seed-heaviside-smooth-value-drops-eps", "        val = 0.5 * (1 + 2 * np.pi ** (-1) * np.arctan(var.val * eps ** (-1)))\n",
+       "        val = heaviside_smooth(var.val)\n", "R1"),
     _m("maximum-merge-in-own-format", "pp.matrix_operations.merge_matrices(max_jac, lines, inds, \"csr\")",
        "pp.matrix_operations.merge_matrices(max_jac, lines, inds, jacs[0].getformat())", "R4", accept_undecided=True),
     _m("maximum-merge-csc-constant", "pp.matrix_operations.merge_matrices(max_jac, lines, inds, \"csr\")",
